@@ -41,6 +41,7 @@ static expect_t expect_extension(int ext, int anchor_hash_ok) {
 		case FXE_OTHER_INPUT: e.cls = X_NOT_OK; break;   /* root differs as well: PUB-01 or PUB-03, whichever is evaluated first */
 		case FXE_OTHER_AGGR_TIME: e.cls = X_NOT_OK; break; /* refused as a failed extension or reported as PUB-02 */
 		case FXE_RIGHT_EXTRA: case FXE_RIGHT_EXTRA_TOP: e.cls = X_NOT_OK; break;   /* other root, other shape: a refused extension or a contradiction */
+		case FXE_LEFT_AS_RIGHT_LOW: case FXE_LEFT_AS_RIGHT_MID: case FXE_LEFT_AS_RIGHT_HIGH: e.cls = X_NOT_OK; break;   /* likewise */
 		case FXE_NO_AGGR_TIME_FIELD: e.cls = X_NOT_OK; break;   /* a chain for another aggregation time (its publication time): refused or PUB-02 */
 		default: e.cls = X_INCONCLUSIVE; break;           /* error status, error PDU, bad MAC, wrong id, no reply */
 	}
@@ -331,6 +332,10 @@ static void calendar_case(int form, int broken, int ext) {
 		case FXE_RIGHT_EXTRA: case FXE_RIGHT_EXTRA_TOP:
 			/* surplus right link: right links differ (CAL-04), root differs, or the extension is refused. A signature without a calendar
 			 * chain has no right links and no root to compare: the statement is silent about the (malformed) shape of such a reply */
+			e.cls = form == 0 ? X_SILENT : X_NOT_OK;
+			break;
+		case FXE_LEFT_AS_RIGHT_LOW: case FXE_LEFT_AS_RIGHT_MID: case FXE_LEFT_AS_RIGHT_HIGH:
+			/* another shape: a right link the signature's chain does not have (CAL-04), another root, another time - never the anchor of this signature */
 			e.cls = form == 0 ? X_SILENT : X_NOT_OK;
 			break;
 		default: e.cls = X_INCONCLUSIVE; break;
